@@ -47,7 +47,11 @@ RULE_ADDED = (
               'itial state, zeros, ones) under a non-zero count. '
               ' '
               'Round 18: requests of 10001 (4097, 20001, 65535) blocks: announced count and eve'
-              'ry block. ')
+              'ry block. '
+              ' '
+              'Round 19: headers equal to an earlier one (same request or an earlier request of'
+              ' the manager) in every field the block hash covers, with another merkle proof / '
+              'coinbase transaction. ')
 RULE = RULE + " " + RULE_ADDED.strip()
 ASSUMPTIONS = [
     "simulated device + fake transports trusted; the device follows framing only",
@@ -96,6 +100,14 @@ def run_case(acc, cseed, spec, stack_holder):
         if cands and rng.random() < 0.15:
             acc.count("headers_sent_again_in_another_request")
             return rng.choice(cands)
+        # ... or a header sent before (in this request or an earlier one) whose every field
+        # up to the merge-mining header is the same - hence the same block hash - but which
+        # comes with another coinbase transaction: the metadata is about THIS coinbase
+        cands = [h for h in pool + blocks + [x for bl in brothers for x in bl]
+                 if h["nfields"] in nfs and h["nfields"] >= 19 and h.get("cb_hash")]
+        if cands and is_adv and rng.random() < 0.08:
+            acc.count("headers_with_the_block_hash_of_an_earlier_one_and_another_coinbase")
+            return gb.same_header_other_coinbase(rng, rng.choice(cands))
         # boundary: one of the header's RLP list payloads sits exactly where the
         # list prefix changes form (54..57, 255..257 bytes)
         if boundary and rng.random() < 0.6:
